@@ -272,7 +272,26 @@ def _copy_repo(dst):
     shutil.copytree(REPO, dst, ignore=shutil.ignore_patterns(".git", "__pycache__", ".pytest_cache", "*.egg-info"))
 
 
-def evaluate(m, procs, tier="quick"):
+def tests_only(m):
+    """True if the repository's own test suite passes with the mutant applied."""
+    wt = tempfile.mkdtemp(prefix="mutwt-", dir="/tmp")
+    os.rmdir(wt)
+    try:
+        _copy_repo(wt)
+        path = os.path.join(wt, "han", m["file"])
+        src = open(path).read()
+        open(path, "w").write(src[:m["a"]] + m["text"] + src[m["b"]:])
+        try:
+            t = subprocess.run(["/venv/bin/python", "-m", "pytest", "-q", "-p", "no:cacheprovider", "-x"], cwd=wt, capture_output=True, text=True, timeout=120,
+                               env=dict(os.environ, PYTHONDONTWRITEBYTECODE="1"))
+            return m["id"], t.returncode == 0
+        except subprocess.TimeoutExpired:
+            return m["id"], False
+    finally:
+        shutil.rmtree(wt, ignore_errors=True)
+
+
+def evaluate(m, procs, tier="quick", known_tests_pass=False, depth=99):
     wt = tempfile.mkdtemp(prefix="mutwt-", dir="/tmp")
     out = tempfile.mkdtemp(prefix="mutout-", dir="/tmp")
     os.rmdir(wt)
@@ -284,8 +303,8 @@ def evaluate(m, procs, tier="quick"):
         open(path, "w").write(src[:m["a"]] + m["text"] + src[m["b"]:])
         env0 = dict(os.environ, PYTHONDONTWRITEBYTECODE="1")
         try:
-            t = subprocess.run(["/venv/bin/python", "-m", "pytest", "-q", "-p", "no:cacheprovider", "-x"], cwd=wt, capture_output=True, text=True, timeout=120, env=env0)
-            tests_pass = t.returncode == 0
+            t = None if known_tests_pass else subprocess.run(["/venv/bin/python", "-m", "pytest", "-q", "-p", "no:cacheprovider", "-x"], cwd=wt, capture_output=True, text=True, timeout=120, env=env0)
+            tests_pass = known_tests_pass or t.returncode == 0
         except subprocess.TimeoutExpired:
             tests_pass = False
         if not tests_pass:
@@ -293,7 +312,7 @@ def evaluate(m, procs, tier="quick"):
             return res
         env = dict(os.environ, VERIF_REPO=wt, VERIF_OUT=out, VERIF_FAILFAST="1", VERIF_PROCS=str(procs), VERIF_TASK_LIMIT="900")
         res["checks"] = {}
-        for c in RELEVANT[m["file"]]:
+        for c in RELEVANT[m["file"]][:depth]:
             t0 = time.time()
             try:
                 r = subprocess.run([os.path.join(VERIF, "check"), c, "--tier", tier], env=env, capture_output=True, text=True, timeout=2400)
@@ -337,6 +356,20 @@ def main():
             by[m["file"]] = by.get(m["file"], 0) + 1
         print(len(ms), "mutants", by)
         return 0
+    if cmd == "tests":  # phase 1: which mutants does the repository's own suite notice?  -> tests.jsonl
+        import multiprocessing as mp
+
+        ms = [json.loads(l) for l in open(lst)]
+        tf = os.path.join(MUT_DIR, "tests.jsonl")
+        done = {json.loads(l)["id"] for l in open(tf)} if os.path.exists(tf) else set()
+        todo = [m for m in ms if m["id"] not in done]
+        with mp.Pool(int(arg.get("--procs", 8))) as pool, open(tf, "a") as fh:
+            for i, (mid, ok) in enumerate(pool.imap_unordered(tests_only, todo)):
+                fh.write(json.dumps({"id": mid, "tests_pass": ok}) + "\n")
+                fh.flush()
+        rs = [json.loads(l) for l in open(tf)]
+        print(len(rs), "mutants;", sum(r["tests_pass"] for r in rs), "not noticed by the repository's tests")
+        return 0
     if cmd == "run":
         ms = [json.loads(l) for l in open(lst)]
         if files:
@@ -346,6 +379,11 @@ def main():
         done = set()
         if os.path.exists(resf):
             done = {json.loads(l)["id"] for l in open(resf)}
+        tf = os.path.join(MUT_DIR, "tests.jsonl")
+        tp = {}
+        if os.path.exists(tf):
+            tp = {r["id"]: r["tests_pass"] for r in map(json.loads, open(tf))}
+        depth = int(arg.get("--depth", 99))
         deadline = time.time() + float(arg.get("--hours", 4)) * 3600
         procs = int(arg.get("--procs", 8))
         for m in ms:
@@ -353,7 +391,10 @@ def main():
                 continue
             if time.time() > deadline:
                 break
-            r = evaluate(m, procs)
+            if tp.get(m["id"]) is False:
+                r = {"id": m["id"], "file": m["file"], "line": m["line"], "func": m["func"], "op": m["op"], "desc": m["desc"], "orig": m["orig"], "text": m["text"][:120], "verdict": "killed_by_repo_tests"}
+            else:
+                r = evaluate(m, procs, known_tests_pass=tp.get(m["id"], False), depth=depth)
             with open(resf, "a") as fh:
                 fh.write(json.dumps(r) + "\n")
             print(r["id"], r["verdict"], r.get("caught_by", ""), flush=True)
